@@ -195,9 +195,9 @@ def o_plus(a, b):
     if isinstance(a, str) and isinstance(b, str):
         return a + b
     if isinstance(a, tuple) and isinstance(b, tuple):
-        return a + b
+        return limit_sized(a) + limit_sized(b)
     if isinstance(a, frozenset) and isinstance(b, frozenset):
-        return DSet(a | b)
+        return DSet(limit_sized(a) | limit_sized(b))
     if isinstance(a, dict) and isinstance(b, dict):
         d = dict(a)
         d.update(b)
@@ -600,13 +600,13 @@ class Ref:
         if isinstance(o, str):
             raise OOD()
         if isinstance(o, Memo):
-            return sum(1 for _ in o)
+            return sum(1 for _ in limit_lazy(iter(o)))
         if isinstance(o, (tuple, list, frozenset, dict)):
             return len(o)
         if isinstance(o, View) and o.kind != 'values':
             return len(o.d)
         if is_iterator(o):
-            return sum(1 for _ in o)
+            return sum(1 for _ in limit_lazy(o))         # (the overload for iterators: declared Iterator())
         raise NoMatchingMethodException()
 
     def count(self, o, a):
@@ -883,6 +883,8 @@ class Ref:
                 if t not in seen:
                     seen.add(t)
                     out.append(t)
+                    if CUR.lim is not None and len(out) > CUR.lim:
+                        raise CollectionTooLargeException()     # (made through toList: the limiter of its parameter)
             return tuple(out)
 
         def merge(d1, d2, lvl):
@@ -969,7 +971,8 @@ class Ref:
                     raise OOD()
                 if not is_iterable(kids):
                     raise TypeError('not iterable')
-                kids = list(kids)
+                # (what the producer returns passes the limiter)
+                kids = list(limit_lazy(kids) if is_iterator(kids) else limit_sized(kids))
                 queue = kids + queue if depth_first else queue + kids
         return itertools.islice(gen(), a['n'])
 
@@ -978,7 +981,7 @@ class Ref:
         if isinstance(o, (Ordering, View)):
             raise OOD()
         if is_iterator(o):
-            return tuple(o)
+            return tuple(limit_lazy(iter(o) if isinstance(o, Memo) else o))     # (iterators among the arguments are spliced in, through the limiter)
         return (o,)
 
     def flatten(self, o, a):
@@ -987,7 +990,7 @@ class Ref:
                 if isinstance(x, DSet) and len(x) > 1:
                     raise OOD()         # (iteration order of a set built during evaluation)
                 if isinstance(x, (tuple, list, frozenset)):
-                    yield from rec(x)
+                    yield from rec(limit_sized(x))      # (every nested collection passes the limiter when it is reached)
                 else:
                     yield x
         return rec(it(o))
@@ -1114,10 +1117,12 @@ class Ref:
             if isinstance(x, str) and isinstance(y, str):
                 return x + y
             raise OOD()
-        if isinstance(x, tuple) and isinstance(y, tuple) or is_num(x) and is_num(y):
+        if is_num(x) and is_num(y):
             return x + y
+        if isinstance(x, tuple) and isinstance(y, tuple):
+            return limit_sized(x) + limit_sized(y)      # (the overload for two iterables: both pass the limiter)
         if isinstance(x, frozenset) and isinstance(y, frozenset):
-            return DSet(x | y)
+            return DSet(limit_sized(x) | limit_sized(y))
         if isinstance(x, dict) and isinstance(y, dict):
             return FD(itertools.chain(x.items(), y.items()))
         if is_iterable_arg(x) and is_iterable_arg(y):
@@ -1224,7 +1229,7 @@ class Ref:
         if isinstance(o, (Ordering, View)):
             raise OOD()
         if is_iterator(o):
-            return DSet(o)
+            return DSet(limit_lazy(iter(o) if isinstance(o, Memo) else o))
         return DSet([o])
 
     def toSet(self, o, a):
@@ -1291,6 +1296,8 @@ class Ref:
     root = None
 
     def _root(self):
+        if CUR.lim is not None:
+            raise OOD()           # (a second consumer of `$` under yaql.limitIterators: not followed)
         r = self.root
         if isinstance(r, Memo) or isinstance(r, (tuple, list)) or isinstance(r, frozenset) and not isinstance(r, DSet):
             return r
@@ -1362,12 +1369,35 @@ def no_lazies(o):
     return o
 
 
+def coll_args(op):
+    """the collections among the arguments (parameters declared Iterable())"""
+    name = op['op']
+    if name in ('concat', 'zip', 'zipLongest'):
+        return list(op['vss'])
+    if name in ('join', 'defaultIfEmpty', 'deleteAll', 'insertMany', 'replaceMany'):
+        return [op['vs']]
+    return []
+
+
 def apply_op(o, op):
-    """one stage applied to a run-time object"""
+    """one stage applied to a run-time object.  The arguments are converted - collections pass the limiter - once an
+    overload has accepted the receiver, before the function runs."""
     name = op['op']
     if name not in LINEAR:
         o = no_lazies(o)
-    return getattr(REF, 'in_' if name == 'in' else name)(o, op)
+    over = CUR.lim is not None and any(len(xs) > CUR.lim for xs in coll_args(op))
+    try:
+        r = getattr(REF, 'in_' if name == 'in' else name)(o, op)
+    except (OOD, NoMatchingMethodException, NoMatchingFunctionException, NoFunctionRegisteredException,
+            AmbiguousMethodException):
+        raise
+    except Exception:
+        if over:
+            raise CollectionTooLargeException()
+        raise
+    if over:
+        raise CollectionTooLargeException()
+    return r
 
 
 def convert_input(v):
@@ -1488,9 +1518,24 @@ def finalise(o):
         return r
     if isinstance(o, frozenset):
         limit_sized(o)
-        r = FSet(finalise(x) for x in o)
-        if not CUR.sl and not all(out_hashable(x) for x in r):
-            raise TypeError('unhashable')
+        # the members are converted (and, for a set, hashed) one by one in the set's iteration order: when they fail in
+        # different ways there is no documented result
+        r, errs = FSet(), set()
+        for x in o:
+            try:
+                fx = finalise(x)
+                if not CUR.sl and not out_hashable(fx):
+                    raise TypeError('unhashable')
+                r.append(fx)
+            except OOD:
+                raise
+            except Exception as e:
+                errs.add(type(e).__name__)
+                err = e
+        if len(errs) > 1:
+            raise OOD()
+        if errs:
+            raise err
         return r
     if isinstance(o, View):
         # documented: {"a" => 1, "b" => 2}.keys() -> ["a", "b"], .values() -> [1, 2], .items() -> [["a", 1], ["b", 2]]
